@@ -127,7 +127,7 @@ class T2Any(object):
             return b'\x00'
         return None
 
-    def view(self, budget, limit=300000):
+    def view(self, budget, limit=300000, mode='timeout', sector=0):
         """everything (up to `limit` bytes) a reader that loads 16 bytes at a time in ascending order obtains with `budget`
         commands (None = unlimited), and the number of commands that takes; stops at the first
         command that is not answered with 16 bytes.  Independent of the code under test: READ of
@@ -135,13 +135,14 @@ class T2Any(object):
         out = bytearray()
         used = 0
         index = 0
-        sector = 0
         while len(out) < limit:
             if index >> 10 != sector:
                 if not self.sectors:
                     break
-                if budget is not None and used + 2 > budget:
-                    break
+                if budget is not None and used + 1 > budget:
+                    break             # the first SECTOR SELECT packet is not answered
+                if budget is not None and used + 2 > budget and mode == 'txerr':
+                    break             # the second packet ends in a transmission error (a timeout is the passive ack)
                 used += 2
                 sector = index >> 10
                 if sector > 255:
